@@ -223,6 +223,9 @@ def handleYaml (j : Json) : Except String Verdict := do
   let kind ← fStr j "kind"
   let isTensor := kind == "tensor"
   let orig ← field j "orig"
+  if orig == Json.null then
+    -- the object could not even be constructed by the implementation
+    return { agree := true, spec := false, why := "built", tags := ["buildFailed", kind] }
   let dflt ← pVal (← field orig "dflt")
   let d ← fNat orig "depth"
   let o ← parseLoaded d orig
